@@ -5,12 +5,16 @@ package mta
 // axioms; the length n and the index i are case-split.
 
 import (
+	"errors"
+
 	"github.com/icon-project/goloop/common/crypto"
 	"github.com/icon-project/goloop/zzverif/sym"
 )
 
 type vhC27Bucket struct {
-	m map[string][]byte
+	m      map[string][]byte
+	writes int
+	failAt int // > 0: the failAt-th write from now on and every later one fail
 }
 
 func (b *vhC27Bucket) Get(key []byte) ([]byte, error) { return b.m[string(key)], nil }
@@ -19,6 +23,10 @@ func (b *vhC27Bucket) Has(key []byte) (bool, error) {
 	return ok, nil
 }
 func (b *vhC27Bucket) Set(key []byte, value []byte) error {
+	b.writes++
+	if b.failAt > 0 && b.writes >= b.failAt {
+		return errors.New("harness: write fault") // this write and every later one fail: the process is going down
+	}
 	b.m[string(key)] = append([]byte{}, value...)
 	return nil
 }
@@ -30,7 +38,7 @@ func (b *vhC27Bucket) Delete(key []byte) error {
 // summaries of encoding/json for the accumulator state (used only under
 // gosym through the "replace" table of props/C27.json; natively the real
 // encoding/json runs)
-var vhC27Saved *serializedMTAccumulator
+var vhC27Saved []*serializedMTAccumulator
 
 func vhC27Marshal(v interface{}) ([]byte, error) {
 	s := v.(*serializedMTAccumulator)
@@ -42,13 +50,13 @@ func vhC27Marshal(v interface{}) ([]byte, error) {
 			c.Roots = append(c.Roots, append([]byte{}, r...))
 		}
 	}
-	vhC27Saved = c
-	return []byte("saved"), nil
+	vhC27Saved = append(vhC27Saved, c)
+	return []byte{'s', byte(len(vhC27Saved) - 1)}, nil
 }
 
 func vhC27Unmarshal(bs []byte, v interface{}) error {
 	s := v.(*serializedMTAccumulator)
-	*s = *vhC27Saved
+	*s = *vhC27Saved[bs[1]]
 	return nil
 }
 
